@@ -175,5 +175,32 @@ Fixpoint check_from (pre : state) (i : nat) (h : list obs) : list (nat * list mi
   end.
 Definition check_history (h : list obs) : list (nat * list mismatch) := check_from empty_state O h.
 
+(* ---- compact histories: the harness writes each observed post-state as a patch over
+   the one before (rows inserted or changed, ids removed); [build] expands them ---- *)
+Record patch := mkPatch {
+  u_topics : list topic; u_subs : list sub; u_msgs : list msg; u_dels : list del; u_snaps : list snap;
+  x_topics : list id; x_subs : list id; x_msgs : list id; x_dels : list id; x_snaps : list id }.
+
+Definition upsert {R} (key : R -> id) (rows : list R) (l : list R) : list R :=
+  fold_left (fun acc r => ins key r (del_ids key [key r] acc)) rows l.
+
+Definition apply_patch (s : state) (p : patch) : state :=
+  mkState (upsert t_id (u_topics p) (del_ids t_id (x_topics p) (topics s)))
+          (upsert s_id (u_subs p) (del_ids s_id (x_subs p) (subs s)))
+          (upsert m_id (u_msgs p) (del_ids m_id (x_msgs p) (msgs s)))
+          (upsert d_id (u_dels p) (del_ids d_id (x_dels p) (dels s)))
+          (upsert n_id (u_snaps p) (del_ids n_id (x_snaps p) (snaps s))).
+
+Record raw := mkRaw { w_lo : time; w_hi : time; w_op : op; w_resp : resp; w_patch : patch; w_skip : bool }.
+
+Fixpoint build_from (pre : state) (l : list raw) : list obs :=
+  match l with
+  | [] => []
+  | r :: t =>
+      let post := apply_patch pre (w_patch r) in
+      mkObs (w_lo r) (w_hi r) (w_op r) (w_resp r) post (w_skip r) :: build_from post t
+  end.
+Definition build (l : list raw) : list obs := build_from empty_state l.
+
 (* the model's own prediction for a step, for replay files and debugging *)
 Definition predict (pre : state) (o : obs) : result := step pre (o_lo o) (o_op o).
